@@ -103,8 +103,27 @@ func (StepMonitor) OnWrite(x *Ctx, w *Write) {
 	if bs == "" || as == "" {
 		return
 	}
+	// "step k's traffic rule was applied": leaving the routing part of a step (forward, by the controller)
+	// requires the gateway to carry the step's share, unless the step is a partition-style step that covers
+	// every replica (no stable pod remains to share traffic with; the code un-pins the stable Service instead)
+	if ai == bi && sc.Traffic != "" && stateOrder[bs] <= stateOrder[string(rolloutsv1beta1.CanaryStepStateTrafficRouting)] &&
+		stateOrder[as] >= stateOrder[string(rolloutsv1beta1.CanaryStepStateMetricsAnalysis)] && int(ai) >= 1 && int(ai) <= len(steps) {
+		step := steps[ai-1]
+		if want, has := stepTraffic(step); has && len(step.Matches) == 0 {
+			v := ViewWorkload(x.W, sc)
+			fullPartition := v != nil && rolloutsv1beta1.IsRealPartition(after) && scaled(step.Replicas, v.Replicas) >= v.Replicas
+			if !fullPartition {
+				x.Count("C02 routed gates judged")
+				if ts := ReadTraffic(x.W, sc); ts.CanaryShare != want {
+					x.Violate("C02/step/traffic-not-applied", fmt.Sprintf("step %d went %s -> %s but the gateway sends %d%% to the canary, the step configures %d%%", ai, bs, as, ts.CanaryShare, want))
+				}
+			}
+		}
+	}
 	switch {
-	case ai == bi && bs == string(rolloutsv1beta1.CanaryStepStateUpgrade) && (as == string(rolloutsv1beta1.CanaryStepStateTrafficRouting) || as == string(rolloutsv1beta1.CanaryStepStateMetricsAnalysis)):
+	case ai == bi && stateOrder[bs] <= stateOrder[string(rolloutsv1beta1.CanaryStepStateUpgrade)] && stateOrder[as] >= stateOrder[string(rolloutsv1beta1.CanaryStepStateTrafficRouting)] &&
+		stateOrder[as] < stateOrder[string(rolloutsv1beta1.CanaryStepStateReady)]:
+		// (StepInit falls through into StepUpgrade inside one reconcile, so Init -> TrafficRouting is the same gate)
 		// step k's pods must have been upgraded and reported ready
 		br := &rolloutsv1beta1.BatchRelease{}
 		if !x.W.Get(br, sc.ns(), AppName) {
@@ -164,12 +183,9 @@ func (StepMonitor) OnWrite(x *Ctx, w *Write) {
 		if !special {
 			x.Violate("C02/step/index-changed-without-request", fmt.Sprintf("step cursor jumped (%d,%s) -> (%d,%s) with no jump / plan edit / rollback / new revision requested", bi, bs, ai, as))
 		}
-	case ai == bi && stateOrder[as] > stateOrder[bs]+1 && !special:
-		// skipping sub-states inside a step: Init->Upgrade->(TrafficRouting)->MetricsAnalysis->Paused->Ready
-		okSkip := bs == string(rolloutsv1beta1.CanaryStepStateUpgrade) && as == string(rolloutsv1beta1.CanaryStepStateMetricsAnalysis)
-		if !okSkip {
-			x.Violate("C02/step/sub-state-skipped", fmt.Sprintf("step %d went %s -> %s skipping a gate", ai, bs, as))
-		}
+	case ai == bi && stateOrder[bs] < stateOrder[string(rolloutsv1beta1.CanaryStepStatePaused)] && stateOrder[as] >= stateOrder[string(rolloutsv1beta1.CanaryStepStateReady)] && !special:
+		// the pause gate (StepPaused) cannot be jumped over
+		x.Violate("C02/step/pause-gate-skipped", fmt.Sprintf("step %d went %s -> %s without passing StepPaused", ai, bs, as))
 	}
 }
 
@@ -202,6 +218,12 @@ func (ExposureMonitor) OnWrite(x *Ctx, w *Write) {
 				x.Count("C01 batchPartition writes judged")
 				if *br.Spec.ReleasePlan.BatchPartition+1 > idx {
 					x.Violate("C01/authorise/batchPartition-ahead-of-step", fmt.Sprintf("Rollout wrote batchPartition=%d while its current step is %d", *br.Spec.ReleasePlan.BatchPartition, idx))
+				}
+				steps := ro.Spec.Strategy.GetSteps()
+				for i, b := range br.Spec.ReleasePlan.Batches {
+					if i < len(steps) && steps[i].Replicas != nil && b.CanaryReplicas != *steps[i].Replicas {
+						x.Violate("C01/authorise/batch-differs-from-step", fmt.Sprintf("Rollout wrote batch %d = %s into the BatchRelease, step %d of its plan says %s", i, b.CanaryReplicas.String(), i+1, steps[i].Replicas.String()))
+					}
 				}
 			}
 		}
@@ -238,20 +260,36 @@ func (ExposureMonitor) OnWrite(x *Ctx, w *Write) {
 	if prev == v.Exposure {
 		return
 	}
-	idx, st, _, ok := StepCursor(ro)
-	steps := ro.Spec.Strategy.GetSteps()
-	if !ok || idx < 1 || int(idx) > len(steps) {
+	x.Count("C01 knob writes judged")
+	// The BatchRelease controller executes the plan and the authorisation the Rollout gave it in the
+	// BatchRelease spec (part (a) judges those against the Rollout's current step); a plan edit or a backward
+	// jump that has not reached the BatchRelease yet cannot retract exposure that was already granted.
+	plan := br.Spec.ReleasePlan
+	if len(plan.Batches) == 0 {
 		return
 	}
-	x.Count("C01 knob writes judged")
-	planned := scaled(steps[idx-1].Replicas, v.Replicas)
-	if st == string(rolloutsv1beta1.CanaryStepStateCompleted) {
+	authorised := int(br.Status.CanaryStatus.CurrentBatch)
+	if plan.BatchPartition != nil && int(*plan.BatchPartition) < authorised {
+		authorised = int(*plan.BatchPartition)
+	}
+	if authorised >= len(plan.Batches) {
+		authorised = len(plan.Batches) - 1
+	}
+	if authorised < 0 {
+		authorised = 0
+	}
+	cr := plan.Batches[authorised].CanaryReplicas
+	planned := scaled(&cr, v.Replicas)
+	if plan.BatchPartition == nil {
 		planned = v.Replicas // promotion of the remaining pods after the last step
 	}
+	if nn := br.Status.CanaryStatus.NoNeedUpdateReplicas; nn != nil && *nn > 0 {
+		return // rollback-in-batch arithmetic is judged by the E3 part
+	}
 	// percent-rounding slack of at most 1% of the workload size
-	if float64(v.Exposure-planned) > 0.01*float64(v.Replicas) {
-		x.Violate("C01/exposure/exceeds-current-step/"+sc.Kind+"-"+sc.Style, fmt.Sprintf("BatchRelease controller set %s on a %d-replica workload: %d new-revision pods allowed, but step %d (%s) plans %d",
-			v.KnobText, v.Replicas, v.Exposure, idx, steps[idx-1].Replicas.String(), planned))
+	if float64(v.Exposure-planned) > 0.01*float64(v.Replicas) && v.Exposure > prev {
+		x.Violate("C01/exposure/exceeds-authorised-step/"+sc.Kind+"-"+sc.Style, fmt.Sprintf("BatchRelease controller set %s on a %d-replica workload: %d new-revision pods allowed, but the authorised batch %d (%s, batchPartition=%s) plans %d",
+			v.KnobText, v.Replicas, v.Exposure, authorised, cr.String(), fmtInt32(plan.BatchPartition), planned))
 	}
 	if v.Exposure < prev && !requested(x.Mon, "scale") && x.Pre != nil && x.Pre.BatchRelease != nil {
 		x.Violate("C01/monotone/knob-moved-back/"+sc.Kind+"-"+sc.Style, fmt.Sprintf("BatchRelease controller moved the update knob back toward the old revision while the release moves forward: exposure %d -> %d (%s)", prev, v.Exposure, v.KnobText))
@@ -290,6 +328,10 @@ func readyHolds(br *rolloutsv1beta1.BatchRelease, v *WorkloadView) (bool, string
 	planned := scaled(&cr, v.Replicas)
 	if br.Status.CanaryStatus.NoNeedUpdateReplicas != nil && *br.Status.CanaryStatus.NoNeedUpdateReplicas > 0 {
 		return true, "" // rollback-in-batch arithmetic is judged by the E3 part
+	}
+	if v.CanaryPods > 0 || br.Spec.ReleasePlan.RollingStyle == rolloutsv1beta1.CanaryRollingStyle {
+		// canary style: the batch's pods are the pods of the extra canary Deployment
+		v = &WorkloadView{Replicas: v.Replicas, Updated: v.CanaryPods, UpdatedReady: v.CanaryPodsReady}
 	}
 	tol := 0
 	if ft := br.Spec.ReleasePlan.FailureThreshold; ft != nil {
